@@ -150,7 +150,7 @@ func (g *v07Gen) expire() { g.advance(g.cfg.idle + time.Second + time.Millisecon
 
 // motif inserts a scripted fragment of history that random choice alone rarely produces.
 func (g *v07Gen) motif() {
-	k := rapid.IntRange(0, 8).Draw(g.rt, "motif")
+	k := rapid.IntRange(0, 9).Draw(g.rt, "motif")
 	s := g.sess()
 	name := ""
 	switch k {
@@ -239,6 +239,19 @@ func (g *v07Gen) motif() {
 		}
 		g.datagram(s)
 		g.reply(s)
+	case 9:
+		// the connection ends while datagrams that start NEW sessions are still queued behind a stuck
+		// receive loop; the datagram queue hands them out after the loss
+		name = "connlost-with-queued-new-sessions"
+		g.datagram(s)
+		g.add(v07Op{kind: v07OpParkFeeder, which: 1})
+		g.datagram(s)
+		n := rapid.IntRange(1, 4).Draw(g.rt, "queued")
+		for i := 0; i < n; i++ {
+			g.datagram(g.sess())
+		}
+		g.add(v07Op{kind: v07OpConnLost, size: rapid.IntRange(0, n+1).Draw(g.rt, "drain")})
+		g.add(v07Op{kind: v07OpReleaseFeeder})
 	default:
 		name = "dialfail-then-reuse"
 		g.expire()
@@ -290,7 +303,7 @@ func (g *v07Gen) randomOp() {
 	case w < 99:
 		g.add(v07Op{kind: v07OpReleaseLog})
 	default:
-		g.add(v07Op{kind: v07OpConnLost})
+		g.add(v07Op{kind: v07OpConnLost, size: rapid.IntRange(0, 3).Draw(g.rt, "drain")})
 	}
 }
 
@@ -433,15 +446,16 @@ func TestVerifC07_Scripted(t *testing.T) {
 			cfg := v07Cfg{idle: 2 * time.Second, limit: limit, hookMode: hook, sids: []uint32{1234, 0, 0xffffffff}, randSeed: 1}
 			exp := 3*time.Second + time.Millisecond
 			scripts := map[string][]v07Op{
-				"two-sessions-expire-reuse": {dg(0, 0), dg(1, 1), rp(0, 100), rp(1, 3000), adv(exp), dg(0, 2), rp(0, 50), dg(1, 3)},
-				"fragments":                 {fr(0, 0, 1, 3), fr(0, 0, 0, 3), fr(1, 1, 0, 2), fr(0, 0, 2, 3), rp(0, 4096), adv(exp), fr(1, 1, 1, 2), fr(1, 2, 0, 2), fr(1, 2, 1, 2)},
-				"keepalive-replies":         {dg(0, 0), adv(time.Second), rp(0, 9), adv(time.Second), rp(0, 9), adv(time.Second), rp(0, 9), adv(time.Second), dg(0, 1)},
-				"park-send-reuse":           {dg(0, 0), {kind: v07OpParkSend, s: 0}, rp(0, 30), adv(exp), dg(0, 1), rp(0, 31), {kind: v07OpReleaseSend, s: 0}, rp(0, 32)},
-				"logger-parked-window":      {{kind: v07OpParkLog, s: 0}, fr(0, 0, 0, 2), adv(exp), fr(0, 0, 1, 2), dg(0, 1), {kind: v07OpReleaseLog}, dg(0, 2)},
-				"sweep-two-logger-parked":   {{kind: v07OpParkLog, s: 0}, dg(0, 0), dg(1, 1), {kind: v07OpParkLog, s: 1}, adv(exp), dg(1, 2), dg(0, 3), {kind: v07OpReleaseLog}, {kind: v07OpReleaseLog}, dg(1, 4), dg(0, 5)},
-				"faults":                    {dg(0, 0), {kind: v07OpReadFail, s: 0}, dg(0, 1), {kind: v07OpSendFail, s: 0}, rp(0, 10), dg(0, 2), {kind: v07OpDialFail}, dg(1, 3), {kind: v07OpHookFail}, dg(1, 4), dg(1, 5), {kind: v07OpWriteFail}, dg(1, 6), dg(1, 7)},
-				"feeder-parked-expire":      {dg(0, 0), {kind: v07OpParkFeeder, which: 1}, dg(0, 1), dg(1, 2), adv(exp), {kind: v07OpReleaseFeeder}, dg(0, 3)},
-				"conn-lost-with-parked":     {dg(0, 0), dg(1, 1), {kind: v07OpParkSend, s: 0}, rp(0, 30), {kind: v07OpParkFeeder, which: 1}, dg(1, 2), {kind: v07OpConnLost}},
+				"two-sessions-expire-reuse":     {dg(0, 0), dg(1, 1), rp(0, 100), rp(1, 3000), adv(exp), dg(0, 2), rp(0, 50), dg(1, 3)},
+				"fragments":                     {fr(0, 0, 1, 3), fr(0, 0, 0, 3), fr(1, 1, 0, 2), fr(0, 0, 2, 3), rp(0, 4096), adv(exp), fr(1, 1, 1, 2), fr(1, 2, 0, 2), fr(1, 2, 1, 2)},
+				"keepalive-replies":             {dg(0, 0), adv(time.Second), rp(0, 9), adv(time.Second), rp(0, 9), adv(time.Second), rp(0, 9), adv(time.Second), dg(0, 1)},
+				"park-send-reuse":               {dg(0, 0), {kind: v07OpParkSend, s: 0}, rp(0, 30), adv(exp), dg(0, 1), rp(0, 31), {kind: v07OpReleaseSend, s: 0}, rp(0, 32)},
+				"logger-parked-window":          {{kind: v07OpParkLog, s: 0}, fr(0, 0, 0, 2), adv(exp), fr(0, 0, 1, 2), dg(0, 1), {kind: v07OpReleaseLog}, dg(0, 2)},
+				"sweep-two-logger-parked":       {{kind: v07OpParkLog, s: 0}, dg(0, 0), dg(1, 1), {kind: v07OpParkLog, s: 1}, adv(exp), dg(1, 2), dg(0, 3), {kind: v07OpReleaseLog}, {kind: v07OpReleaseLog}, dg(1, 4), dg(0, 5)},
+				"faults":                        {dg(0, 0), {kind: v07OpReadFail, s: 0}, dg(0, 1), {kind: v07OpSendFail, s: 0}, rp(0, 10), dg(0, 2), {kind: v07OpDialFail}, dg(1, 3), {kind: v07OpHookFail}, dg(1, 4), dg(1, 5), {kind: v07OpWriteFail}, dg(1, 6), dg(1, 7)},
+				"feeder-parked-expire":          {dg(0, 0), {kind: v07OpParkFeeder, which: 1}, dg(0, 1), dg(1, 2), adv(exp), {kind: v07OpReleaseFeeder}, dg(0, 3)},
+				"conn-lost-queued-new-sessions": {dg(0, 0), {kind: v07OpParkFeeder, which: 1}, dg(0, 1), dg(1, 2), dg(2, 3), dg(1, 4), {kind: v07OpConnLost, size: 3}, {kind: v07OpReleaseFeeder}},
+				"conn-lost-with-parked":         {dg(0, 0), dg(1, 1), {kind: v07OpParkSend, s: 0}, rp(0, 30), {kind: v07OpParkFeeder, which: 1}, dg(1, 2), {kind: v07OpConnLost}},
 			}
 			for name, ops := range scripts {
 				res, h := v07RunCase(t, cfg, ops)
@@ -450,7 +464,7 @@ func TestVerifC07_Scripted(t *testing.T) {
 				if res.violation != "" {
 					t.Fatalf("C07 scripted %q: %s%s", name, res.violation, res.render(cfg, h))
 				}
-				if res.skipped > 0 && name != "conn-lost-with-parked" {
+				if res.skipped > 0 && !strings.HasPrefix(name, "conn-lost") {
 					t.Logf("note: %q skipped %d operations%s", name, res.skipped, res.render(cfg, h))
 				}
 			}
